@@ -107,7 +107,7 @@ pub fn run(out: &mut dyn Write, rng: &mut Rng, n: usize, so: &str) {
                         seen.push(b);
                     }
                 }
-                2 if i % 7 == 0 => ops.push(format!("e{}", rng.below(60))),
+                2 if i % 2 == 0 => ops.push(format!("e{}", rng.below(60))),
                 3 if rng.chance(1, 6) => {
                     // re-set the board in mid-history (clears the repetition table)
                     let f = xfen(&b);
@@ -158,7 +158,7 @@ pub fn run(out: &mut dyn Write, rng: &mut Rng, n: usize, so: &str) {
             }
         }
         ops.push("b".into());
-        ops.push("e3".into());
+        ops.push(if i % 3 == 0 { "e45".to_string() } else { "e3".to_string() });
         calls += ops.len() as u64;
         line(out, &api, &ops);
     }
